@@ -77,7 +77,22 @@ func loadEngine(repo string, overlay map[string][]byte) (*Engine, error) {
 	for _, p := range prog.AllPackages() {
 		path := p.Pkg.Path()
 		name := p.Pkg.Name()
-		if old, ok := e.pkgNames[name]; !ok || (isModPath(path) && !isModPath(old)) {
+		// a package name used in a contract means the module's package of that name, else the
+		// public standard-library one (not internal/strconv when strconv is meant): deterministic choice
+		better := func(old string) bool {
+			if isModPath(path) != isModPath(old) {
+				return isModPath(path)
+			}
+			oi, ni := strings.Contains(old, "internal/") || strings.Contains(old, "vendor/"), strings.Contains(path, "internal/") || strings.Contains(path, "vendor/")
+			if oi != ni {
+				return !ni
+			}
+			if len(path) != len(old) {
+				return len(path) < len(old)
+			}
+			return path < old
+		}
+		if old, ok := e.pkgNames[name]; !ok || better(old) {
 			e.pkgNames[name] = path
 		}
 		if !isModPath(path) {
